@@ -196,27 +196,41 @@ fn stage_pause(i: &Input, c: &mut Case) -> Result<(), String> {
         _ => Some(*t.pick(&[24usize, 33, 64])),
     };
     let (max_size, _) = safe_max_size(&m.bytes, MaxSize::Untouched);
-    let closing = ReadCfg { tolerate, max_size: max_size.clone(), ..ReadCfg::default() };
+    // buffered (Full) masters must survive a temporary end-of-file inside them as well
+    let masters = m.spec.table().masters();
+    let mut buffered = Vec::new();
+    if !masters.is_empty() && t.chance(1, 3) {
+        for _ in 0..1 + t.below(3) {
+            let id = masters[t.below(masters.len())];
+            if !buffered.contains(&id) {
+                buffered.push(id);
+            }
+        }
+    }
+    c.label_if(!buffered.is_empty(), "buffered_set");
+    let closing = ReadCfg { tolerate, buffered, max_size: max_size.clone(), ..ReadCfg::default() };
     let open = ReadCfg { eof_close: false, ..closing.clone() };
     let cfg = ReadCfg { capacity, ..open.clone() };
     c.label(m.origin.label());
     with_spec!(m.spec, T => {
-        let with_close = read_all::<T>(&m.bytes, &closing);
         let no_close = read_all::<T>(&m.bytes, &open);
-        // (1) disabling end-of-stream closing only removes trailing Ends
+        // (1) disabling end-of-stream closing only removes trailing Ends (stated for the flat stream: a buffered master that
+        //     never gets its End cannot be emitted as a Full item at all, so this part runs without buffering)
+        let with_close = read_all::<T>(&m.bytes, &ReadCfg { buffered: vec![], ..closing.clone() });
+        let flat_no_close = read_all::<T>(&m.bytes, &ReadCfg { buffered: vec![], ..open.clone() });
         let a = items_of(&with_close);
-        let b = items_of(&no_close);
+        let b = items_of(&flat_no_close);
         let ok = b.len() <= a.len() && a[..b.len()] == b[..] && a[b.len()..].iter().all(|x| x.is_end())
-            && first_err(&with_close).map(|e| e.short()) == first_err(&no_close).map(|e| e.short());
+            && first_err(&with_close).map(|e| e.short()) == first_err(&flat_no_close).map(|e| e.short());
         if !ok {
             return Err(format!(
                 "disabling end-of-stream closing changed more than the trailing Ends:\n  input: {}\n  closing:    {}\n  no closing: {}",
-                describe_mixed(&m), render_obs(&with_close), render_obs(&no_close)
+                describe_mixed(&m), render_obs(&with_close), render_obs(&flat_no_close)
             ));
         }
         c.label_if(b.len() < a.len(), "closing_suppressed_some_ends");
         // (2) pauses at tag boundaries
-        let bounds = tag_boundaries(&no_close, len);
+        let bounds = tag_boundaries(&flat_no_close, len);
         let mut steps = Vec::new();
         let mut pos = 0usize;
         let mut pauses = 0;
@@ -240,7 +254,7 @@ fn stage_pause(i: &Input, c: &mut Case) -> Result<(), String> {
         c.label_if(pauses > 0, "has_pause");
         c.label_if(pauses > 1, "several_pauses");
         c.nontrivial = pauses > 0;
-        c.key(&(&m.bytes, &format!("{:?}", steps), capacity, tolerate));
+        c.key(&(&m.bytes, &format!("{:?}", steps), capacity, tolerate, &open.buffered));
         c.sample_with(|| format!("{} | script {:?} | cfg {}", describe_mixed(&m), &steps[..steps.len().min(30)], cfg.render()));
         // driver: keep calling next() after None while the source still holds data or script steps
         let mut src = ScriptRead::new(&m.bytes, steps.clone());
@@ -303,6 +317,7 @@ pub fn run(rc: &mut RunCtx) {
     rc.require_label("random_schedules", "capacity_below_16", 50_000);
     rc.require_label("eof_pauses", "has_pause", 300_000);
     rc.require_label("eof_pauses", "none_then_more_items", 50_000);
+    rc.require_label("eof_pauses", "buffered_set", 100_000);
     if !rc.quick() {
         rc.run_fuzz(Some(STAGES[1]), 350);
     }
